@@ -44,8 +44,10 @@ struct PipeWorld : World {
 		p.set("egrow", r.chance(1, 2));
 		int nmsg = (int) r.range(1, tier ? 8 : 5);
 		int lenclass = (int) r.below(4);
+		bool zerorich = r.chance(1, 12);      // long messages made of {byte, 0, 0} groups: a ZPE frame of them needs up to half its length as decoder scratch
 		for (int i = 0; i < nmsg; ++i) {
 			size_t mx = lenclass == 0 ? 8 : lenclass == 1 ? 40 : lenclass == 2 ? 300 : 600;
+			if (zerorich && (i == 0 || r.chance(1, 2))) { Bytes m; size_t groups = (size_t) r.range(40, 1500); uint8_t b = (uint8_t) r.range(1, 255); for (size_t k = 0; k < groups; ++k) { m.push_back(b); m.push_back(0); m.push_back(0); if (r.chance(1, 40)) m.push_back((uint8_t) r.range(1, 255)); } p.blobs.push_back(m); continue; }
 			p.blobs.push_back(gen_message(r, mx, true));
 		}
 		int nops = (int) r.range(0, tier ? 200 : 90);
@@ -635,6 +637,13 @@ struct PipeWorld : World {
 			const decode_state &ds = rs._rd._state;
 			log.ev("R_DISPATCH -> %d calls=%d qlen=%zu curr=%zu pos=%zu len=%zu msg=%zd", r, rx.calls - before, rs._rd.len, ds.curr, ds.data.pos, ds.data.len, ds.data.msg);
 			if (rx.calls - before > 1) fail("dispatch-multi", "one dispatch call invoked the handler %d times", rx.calls - before);
+			// the stream owns a read buffer that can grow: "the decoder needs space" is for the stream to settle, not an error for its caller
+			// (an event loop drops an input whose dispatch fails, and the complete frame with it)
+			if (r == E_MissingBuffer) {
+				Bytes qb = queue_bytes(rs._rd); bool complete = false; for (size_t i = ds.curr; i < qb.size(); ++i) if (!qb[i]) { complete = true; break; }
+				if (complete) fail("stall", "stream dispatch reports 'missing buffer' (%d) although the rest of the frame (delimiter included) is in its growable read buffer (%zu of %zu bytes used, decoded up to %zu)", r, rs._rd.len, rs._rd.max, ds.curr);
+				st.hit("probe:dispatch_needs_space_on_partial_frame");
+			}
 			abstract(OP_RRECV, r < 0 ? 0 : 1 + (rx.calls - before) + 2 * ((r & 0x10000) != 0));
 			return r;
 		};
